@@ -5,7 +5,7 @@
   Flags  : [noneable, default, frozen]
   Specs  : ["any",F] ["bool",F] ["int",lo,hi,F] ["float",[m,e]|null,[m,e]|null,F] ["str",rx|null,F]
            ["enum",[vals],F] ["list",elem,min,max|null,F] ["tuple",[elems],min,max|null,F]
-           ["dict",null|[[key,spec],..],F] ["obj",cls,F] ["union",[cands],F]
+           ["dict",null|[[key,spec],..],F] ["obj",cls,F] ["union",[cands],F] ["callable",F]
   Keys   : ["c",name] | ["k",rx|null]
 -/
 import PgModel.Json
@@ -97,6 +97,8 @@ partial def specOfJ : J → Option Spec
   | .arr [.str "obj", .int c, f] => (flagsOfJ f).map (.obj c.toNat)
   | .arr [.str "union", .arr cs, f] => do
     pure (.union (← cs.mapM specOfJ) (← flagsOfJ f))
+  | .arr [.str "callable", f] => do
+    pure (.callable (← flagsOfJ f))
   | _ => none
 
 def optIntToJ : Option Int → J
@@ -125,6 +127,7 @@ partial def specToJ : Spec → J
     .arr [.str "dict", .arr (fs.map fun fld => .arr [keyToJ fld.key, specToJ fld.value]), flagsToJ f]
   | .obj c f => .arr [.str "obj", .int c, flagsToJ f]
   | .union cs f => .arr [.str "union", .arr (cs.map specToJ), flagsToJ f]
+  | .callable f => .arr [.str "callable", flagsToJ f]
 
 /-- `{"sub": [[a,b],..], "rx": [[id, string, bool],..]}` -/
 def envOfJ (j : J) : Env :=
